@@ -118,6 +118,7 @@ func (f *fakeServer) UpdateLEDs(i int, colors []openrgb.Color) error {
 type scen struct {
 	dBound int // added to the tier's preemption bound
 	unbounded bool // explore every interleaving (state-fingerprint pruning makes it finite)
+	outCap        int  // capacity of the shared output channel (default 1)
 	noEarlyTimers bool // timers / sleeps only fire when nothing else can run (keeps the OpenRGB connect loop out of the way)
 	name   string
 	rgb    bool
@@ -149,7 +150,11 @@ func (sc scen) run() {
 	} else {
 		openrgb.VerifConnect = nil
 	}
-	out := make(chan midi.Event, 1)
+	oc := sc.outCap
+	if oc == 0 {
+		oc = 1
+	}
+	out := make(chan midi.Event, oc)
 	vsched.Name(out, "midiOut")
 	drain(out, "out")
 	start := func(tag string, ch, note int, evs []*input.InputEvent) {
@@ -282,7 +287,7 @@ func scenarios(tier string) []scen {
 	}
 	// the panic action replaces the MIDI-input tracker: any schedule exposes a missing lock through the happens-before
 	// detector, so the non-preemptive schedules suffice in the quick tier (129 sends make higher bounds expensive)
-	s = append(s, scen{name: "no-openrgb, panic while midi input is live", events: []*input.InputEvent{key("KEY_A", 1), key("KEY_ESC", 1)}, midiIn: true, dBound: -2, noEarlyTimers: true})
+	s = append(s, scen{name: "no-openrgb, panic while midi input is live", events: []*input.InputEvent{key("KEY_A", 1), key("KEY_ESC", 1)}, midiIn: true, dBound: -2, noEarlyTimers: true, outCap: 512})
 	if tier == "thorough" {
 		s = append(s,
 			scen{name: "openrgb connected, octave change + release", events: []*input.InputEvent{key("KEY_A", 1), key("KEY_F2", 1), key("KEY_A", 0)}, rgb: true},
